@@ -7,7 +7,7 @@ import numpy as np
 
 from symx.runner import Family, arr, increasing, run_check
 from symx.core import Sym
-from checks.rfafam import WINDOW, shape_configs, inputs, make, params_for, num
+from checks.rfafam import WINDOW, shape_configs, large_configs, inputs, make, params_for, num
 from checks.matchfam import gap_grids, cx
 
 FIVE = WINDOW + ("PiecewiseConstantRFA",)
@@ -25,8 +25,8 @@ class AffineY(Family):
 
     def configs(self, tier):
         if tier == "quick":
-            return [c for c in _cfgs(tier, FIVE, 4, (2, 3), adaptive_max_m=3) if c["m"] >= 2]
-        return _cfgs(tier, FIVE, 5, (2, 3, 4), adaptive_max_m=4)
+            return [c for c in _cfgs(tier, FIVE, 4, (2, 3), adaptive_max_m=3) if c["m"] >= 2] + large_configs(tier, FIVE, adaptive=False)
+        return _cfgs(tier, FIVE, 5, (2, 3, 4), adaptive_max_m=4) + large_configs(tier, FIVE, adaptive=False)
 
     def run(self, ctx, inst, strategy, m, n, grid, p):
         x, y, X, ys = inputs(ctx, m, grid)
@@ -47,8 +47,8 @@ class AffineX(Family):
 
     def configs(self, tier):
         if tier == "quick":
-            return _cfgs(tier, FIVE, 4, (2, 3), adaptive_max_m=3)
-        return _cfgs(tier, FIVE, 5, (2, 3, 4), sym_x_max_m=3, adaptive_max_m=4)
+            return _cfgs(tier, FIVE, 4, (2, 3), adaptive_max_m=3) + large_configs(tier, FIVE, adaptive=False)
+        return _cfgs(tier, FIVE, 5, (2, 3, 4), sym_x_max_m=3, adaptive_max_m=4) + large_configs(tier, FIVE, adaptive=False)
 
     def run(self, ctx, inst, strategy, m, n, grid, p):
         x, y, X, ys = inputs(ctx, m, grid)
@@ -83,6 +83,16 @@ class Locality(Family):
                         for j in ((0, m - 1) if adaptive else (0, 2, m - 1)):
                             grid = [str(g) for g in gap_grids(m, tier, limit=1)[2]]
                             out.append({"strategy": s, "m": m, "n": n, "grid": grid, "p": p, "j": j})
+        # adaptive strategies with a window of 3 samples (with a = 2 both sides truncate to 1 and window effects of far
+        # averages are invisible): one configuration in quick, both strategies and both ends in thorough
+        for s in (("LinearAdaptiveRFA",) if tier == "quick" else ("LinearAdaptiveRFA", "ExpAdaptiveRFA")):
+            for j in ((0,) if tier == "quick" else (0, 4)):
+                p = {"alpha": "1"} if s.startswith("Linear") else {"alpha": "1", "beta": "1/2", "exp": "2"}
+                out.append({"strategy": s, "m": 5, "n": 3, "grid": ["0", "1", "2", "3", "4"], "p": p, "j": j})
+        # long series for the strategies without value-dependent branches: a dependence on a far-away average shows
+        for cfg in large_configs(tier, FIVE, adaptive=False):
+            for j in (0, cfg["m"] // 2, cfg["m"] - 1):
+                out.append(dict(cfg, j=j))
         return out
 
     def run(self, ctx, inst, strategy, m, n, grid, p, j):
@@ -114,8 +124,8 @@ class Linearity(Family):
 
     def configs(self, tier):
         if tier == "quick":
-            return _cfgs(tier, NONADAPTIVE, 4, (2, 3, 4))
-        return _cfgs(tier, NONADAPTIVE, 6, (2, 3, 4, 6), sym_x_max_m=3)
+            return _cfgs(tier, NONADAPTIVE, 4, (2, 3, 4)) + large_configs(tier, NONADAPTIVE)
+        return _cfgs(tier, NONADAPTIVE, 6, (2, 3, 4, 6), sym_x_max_m=3) + large_configs(tier, NONADAPTIVE)
 
     def run(self, ctx, inst, strategy, m, n, grid, p):
         x, y, X, ys = inputs(ctx, m, grid)
